@@ -112,7 +112,7 @@ impl Usage<'_> {
                 let _ = write!(styled, "{USAGE_SEP}");
             }
             let mut cmd = self.cmd.clone();
-            cmd.build();
+            cmd._build_for_flatten_help();
             for (i, sub) in cmd
                 .get_subcommands()
                 .filter(|c| !c.is_hide_set())
